@@ -90,7 +90,10 @@ def gen_retry(rnd, depth):
         return {"k": k}
     k = rnd.choice(["any", "all", "or", "and"])
     n = 2 if k in ("or", "and") else rnd.randint(0, 3)
-    return {"k": k, "parts": [gen_retry(rnd, depth - 1) for _ in range(n)]}
+    out = {"k": k, "parts": [gen_retry(rnd, depth - 1) for _ in range(n)]}
+    if n and rnd.random() < 0.3:
+        out["plain"] = rnd.randrange(n)
+    return out
 
 
 def build_retry(ast, rp):
@@ -118,6 +121,7 @@ def build_retry(ast, rp):
     if k == "never":
         return rp.retry_never()
     parts = [build_retry(p, rp) for p in ast["parts"]]
+    parts = _as_plain_callables(ast, parts, lambda f: (lambda error: f(error)))
     if k == "any":
         return rp.retry_any(*parts)
     if k == "all":
@@ -127,6 +131,17 @@ def build_retry(ast, rp):
     if k == "and":
         return parts[0] & parts[1]
     raise AssertionError(k)
+
+
+def _as_plain_callables(ast, parts, wrap):
+    """`plain: i` on a composite: its i-th operand is handed over as a plain user callable (a function with the protocol's
+    signature and no operators of its own), the documented way of plugging in one's own condition; with `|` / `&` the combination
+    is then dispatched through the built-in operand's reflected operator when the plain one stands on the left"""
+    i = ast.get("plain")
+    if i is None or not parts:
+        return parts
+    i = i % len(parts)
+    return [wrap(p) if j == i else p for j, p in enumerate(parts)]
 
 
 def model_retry(ast, e):
@@ -172,7 +187,10 @@ def gen_stop(rnd, depth):
         return {"k": k}
     k = rnd.choice(["any", "all", "or", "and"])
     n = 2 if k in ("or", "and") else rnd.randint(0, 3)
-    return {"k": k, "parts": [gen_stop(rnd, depth - 1) for _ in range(n)]}
+    out = {"k": k, "parts": [gen_stop(rnd, depth - 1) for _ in range(n)]}
+    if n and rnd.random() < 0.3:
+        out["plain"] = rnd.randrange(n)
+    return out
 
 
 def build_stop(ast, rp):
@@ -186,6 +204,7 @@ def build_stop(ast, rp):
     if k == "never":
         return rp.stop_never()
     parts = [build_stop(p, rp) for p in ast["parts"]]
+    parts = _as_plain_callables(ast, parts, lambda f: (lambda attempts, elapsed_time, *, upcoming_sleep=0.0: f(attempts, elapsed_time, upcoming_sleep=upcoming_sleep)))
     if k == "any":
         return rp.stop_any(*parts)
     if k == "all":
